@@ -241,22 +241,23 @@ class AliWorld:
             if em is before or em is None:
                 self.fail("initmap:no-new-map")
             else:
-                if em._refmolecule is not ali.start or em._targetmolecule is not ali.end:
+                if hasattr(em, '_refmolecule') and hasattr(em, '_targetmolecule') and \
+                        (em._refmolecule is not ali.start or em._targetmolecule is not ali.end):
                     self.fail("initmap:map-not-of-the-stored-molecules")
                 if fbits(float(em.scale_factor)) != fbits(float(scale)):
                     self.fail("initmap:scale-factor", [em.scale_factor, scale])
                 refm, tgtm = ali.start, ali.end
                 rp, tp = np.array(refm.atoms_positions, dtype=float), np.array(tgtm.atoms_positions, dtype=float)
-                extra = {"equiv": sorted((int(k), int(v)) for k, v in em._equivalences.items()),
-                         "keys": sorted(int(k) for k in em._refsystems),
+                extra = {"equiv": sorted((int(k), int(v)) for k, v in getattr(em, '_equivalences', {}).items()),
+                         "keys": sorted(int(k) for k in getattr(em, '_refsystems', {})),
                          "dist": [{int(a): float(np.linalg.norm(tp[j] - rp[a])) if int(a) < len(rp) else -1.0
-                                   for a in em._refsystems} for j in range(len(tp))],
-                         "ref": next((i for i, o in enumerate(self.env) if o is em._refmolecule), -1),
-                         "tgt": next((i for i, o in enumerate(self.env) if o is em._targetmolecule), -1)}
+                                   for a in getattr(em, '_refsystems', {})} for j in range(len(tp))],
+                         "ref": next((i for i, o in enumerate(self.env) if o is getattr(em, '_refmolecule', None)), -1),
+                         "tgt": next((i for i, o in enumerate(self.env) if o is getattr(em, '_targetmolecule', None)), -1)}
                 # the map is of the CURRENT configuration: a map built independently on deep copies agrees
                 from gaddlemaps import ExchangeMap
                 st2, em2, _ = self._call(lambda: ExchangeMap(refm.deep_copy(), tgtm.deep_copy(), scale))
-                if st2 == "ok" and sorted((int(k), int(v)) for k, v in em2._equivalences.items()) != extra["equiv"]:
+                if st2 == "ok" and sorted((int(k), int(v)) for k, v in getattr(em2, '_equivalences', {}).items()) != extra["equiv"]:
                     self.fail("initmap:not-the-map-of-the-current-configuration")
         self.record(f"initmap {fbits(float(scale))}", f"init_exchange_map({scale})", status, extra)
         return status
